@@ -250,6 +250,7 @@ def constants_from_hook(path):
     of how a constant is spelled in the source text; the length formulas are checked here against
     the formulas the model uses."""
     vals, chains, lengths = {}, [], []
+    probes = {"OTS_FROM_U32": [], "OTS_GET_FROM_TYPE": [], "LMS_FROM_U32": [], "LMS_GET_FROM_TYPE": [], "OTS_CHAINS_N": []}
     for ln in open(path):
         ln = ln.strip()
         if not ln.startswith("{"):
@@ -261,6 +262,8 @@ def constants_from_hook(path):
             chains.append(tuple(j["v"]))
         elif j["name"] == "LENGTHS":
             lengths.append(tuple(j["v"]))
+        elif j["name"] in probes:
+            probes[j["name"]].append(tuple(j["v"]))
         else:
             vals[j["name"]] = j["v"]
     need_names = ["ILEN", "MAX_SEED_LEN", "MAX_HASH_SIZE", "MAX_HASH_BLOCK_SIZE", "D_PBLC", "D_MESG", "D_LEAF", "D_INTR",
@@ -306,7 +309,46 @@ def constants_from_hook(path):
     if all(nm in vals for nm in ("MAX_ALLOWED_HSS_LEVELS", "TREE_HEIGHTS", "WINTERNITZ_PARAMETERS")):
         cfg = {"MAX_ALLOWED_HSS_LEVELS": vals["MAX_ALLOWED_HSS_LEVELS"][0], "TREE_HEIGHTS": vals["TREE_HEIGHTS"],
                "WINTERNITZ_PARAMETERS": vals["WINTERNITZ_PARAMETERS"]}
+    k["_probes"] = probes if vals.get("TYPE_CODES_PROBED") else None
     return k, misc, cfg
+
+
+def tables_from_probes(probes, k, kind):
+    """type-code tables in the shape parse_lmots / parse_lms return, synthesised from the compiled
+    code's answers on the probed codes (every code below 2^17 and the accepted codes with each higher
+    bit set): variants are numbered by distinct row"""
+    if kind == "ots":
+        fu = {r[0]: (r[1], r[2], r[4]) for r in probes["OTS_FROM_U32"]}
+        gt = {r[0]: (r[1], r[2], r[4]) for r in probes["OTS_GET_FROM_TYPE"]}
+        # the chain count of a row is get_num_winternitz_chains(w, n) for every n
+        table = {}
+        for i, w in enumerate([1, 2, 4, 8]):
+            for j, n in enumerate([16, 24, 32]):
+                table[(w, n)] = k["HASH_CHAIN_COUNTS"][i * 3 + j]
+        for r in probes["OTS_FROM_U32"] + probes["OTS_GET_FROM_TYPE"]:
+            if table.get((r[2], 32)) != r[3]:
+                raise TranslateError("LM-OTS row %s: chain count is not get_num_winternitz_chains(w, 32)" % (r,))
+        for (n, code, w, p) in probes["OTS_CHAINS_N"]:
+            if table.get((w, n)) != p:
+                raise TranslateError("LM-OTS code %d under n=%d: chain count %d is not get_num_winternitz_chains" % (code, n, p))
+    else:
+        fu = {r[0]: (r[1], r[2]) for r in probes["LMS_FROM_U32"]}
+        gt = {r[0]: (r[1], r[2]) for r in probes["LMS_GET_FROM_TYPE"]}
+    rows = sorted(set(fu.values()) | set(gt.values()))
+    # a variant is identified by its type id (as the enums' discriminants are); should two distinct rows
+    # carry the same type id they are told apart by their position
+    ids = [r[0] for r in rows]
+    vid = {row: (row[0] if ids.count(row[0]) == 1 else 1000 + i) for i, row in enumerate(rows)}
+    return ({c: vid[r] for c, r in sorted(fu.items())}, {c: vid[r] for c, r in sorted(gt.items())}, {vid[r]: r for r in rows})
+
+
+def tables_agree(parsed, probed):
+    """the tables read from the text and the tables the compiled code answers with must describe the same
+    partial maps code -> row on the probed codes"""
+    def flat(t):
+        fu, gt, rows = t
+        return ({c: rows[v] for c, v in fu.items() if v in rows}, {c: rows[v] for c, v in gt.items() if v in rows})
+    return flat(parsed) == flat(probed)
 
 # ---------------------------------------------------------------- struct table (C16)
 
@@ -563,10 +605,8 @@ def hash_inputs():
                 continue
             end = _balanced(s, i, "{", "}")
             body = s[i:end]
-            # local names (parameters, let-bound variables) that occur in the hashed arguments are
-            # numbered by their first occurrence in the function, so that a rename (or an unrelated new
-            # local) is not a change and a swap is
-            ftxt = s[m.start():end]
+            # local names (parameters, let-bound variables) that occur in the hashed arguments are replaced
+            # by numbers, so that a rename, an unrelated new local or reordered statements are not a change
             ident = r"(?<![\w.])([a-z_][a-z0-9_]*)\b(?!\s*(?:\(|::|!))"
             raw = []
             for c in re.finditer(r"\.(chain|update)\s*\(", body):
@@ -576,10 +616,14 @@ def hash_inputs():
             used = set()
             for a in raw:
                 used |= {t.group(1) for t in re.finditer(ident, a) if t.group(1) not in _RUST_WORDS}
+            # ... numbered by first occurrence IN THE HASHED SEQUENCE: the layout is kept up to a
+            # consistent renaming of the locals (insertions, removals, constants, field names and the
+            # pattern of repetitions are part of it; which local is which is decided by execution)
             first = {}
-            for t in re.finditer(ident, ftxt):
-                if t.group(1) in used and t.group(1) not in first:
-                    first[t.group(1)] = len(first) + 1
+            for a in raw:
+                for t in re.finditer(ident, a):
+                    if t.group(1) in used and t.group(1) not in first:
+                        first[t.group(1)] = len(first) + 1
             args = [re.sub(ident, lambda t: ("$%d" % first[t.group(1)]) if t.group(1) in first else t.group(1), a) for a in raw]
             if args:
                 rows.append((path[len("src/"):], args))
@@ -727,15 +771,36 @@ def main():
             # values as compiled (hook); the packing of the parameter byte is still read from the text
             k, misc, cfg_hook = constants_from_hook(consts_file)
             parse_misc_structure()
-            cfg = parse_build_cfg(env_override)
-            if cfg_hook is not None and env_override is None and cfg_hook != cfg:
-                raise TranslateError("build limits of the compiled harness %s differ from build.rs/.cargo/config.toml %s" % (cfg_hook, cfg))
+            if cfg_hook is not None and env_override is None:
+                cfg = cfg_hook          # the limits the default harness was compiled with
+            else:
+                cfg = parse_build_cfg(env_override)
         else:
             k = parse_constants()
             misc = parse_misc()
             cfg = parse_build_cfg(env_override)
-        lmots = parse_lmots()
-        lms = parse_lms()
+        probes = k.pop("_probes", None) if isinstance(k, dict) else None
+        notes = []
+        # type-code tables: read from the text (exact for ALL codes: the wildcard arms are seen); when the
+        # compiled answers are available they must agree, and they take over when the text is no longer
+        # in the shape the reader understands
+        tabs = {}
+        for kind, parser in (("ots", parse_lmots), ("lms", parse_lms)):
+            probed = tables_from_probes(probes, k, kind) if probes else None
+            try:
+                parsed = parser()
+            except TranslateError as e:
+                if probed is None:
+                    raise
+                notes.append("%s tables taken from the compiled code (probed codes); text reader: %s" % (kind, str(e)[:120]))
+                parsed = probed
+            else:
+                if probed is not None and not tables_agree(parsed, probed):
+                    raise TranslateError("%s type-code tables read from the text disagree with the compiled code: %s vs %s" % (kind, parsed, probed))
+            tabs[kind] = parsed
+        lmots, lms = tabs["ots"], tabs["lms"]
+        for nt in notes:
+            print("translator-note: " + nt)
         structs, impls = parse_structs()
         ambient, forbid = ambient_audit()
         vecs = parse_rfc_vectors()
